@@ -53,7 +53,7 @@ def _mk_sample(driver_mod, metrics_mod, task, s, num=Fraction):
         latency=per,
         service_time=per,
         processing_time=per,
-        throughput=None if s["tput"] == 0 else s["tput"],
+        throughput=None if s["tput"] == -1 else s["tput"],
         total_ops=s["ops"],
         total_ops_unit=s["unit"],
         time_period=per,
@@ -160,7 +160,7 @@ def random_cases(seed, n, max_samples, tasks=("t1", "t2", "t3")):
         k = rnd.randint(1, len(tasks))
         use = list(tasks[:k])
         nclients = rnd.randint(1, 4)
-        mode = {t: (0 if rnd.random() < 0.8 else rnd.choice([7, 11])) for t in use}
+        mode = {t: (-1 if rnd.random() < 0.75 else rnd.choice([0, 0, 7, 11])) for t in use}
         unit = {t: rnd.choice(["docs", "ops", "pages", "MB"]) for t in use}
         stream = []
         sid = {t: 0 for t in use}
